@@ -117,7 +117,7 @@ pub fn gen_field(r: &mut Rng, name: &str, depth: u32) -> Value {
     let dt = gen_dt(r, depth);
     let t = dt["t"].as_str().unwrap();
     let nullable = match t {
-        "Null" => true,
+        "Null" | "Decimal128" => true,
         "Union" => false,
         _ => r.chance(1, 2),
     };
@@ -215,6 +215,17 @@ fn gen_f64(r: &mut Rng) -> Value {
 pub struct ValCfg {
     /// probability (in 1/1000) that a position is deliberately malformed
     pub malformed_permille: u64,
+    /// only representable values and well-formed records (no boundary violations, wrong counts, duplicates …)
+    pub strict: bool,
+}
+
+impl ValCfg {
+    pub fn new(malformed_permille: u64) -> Self {
+        ValCfg { malformed_permille, strict: false }
+    }
+    pub fn strict() -> Self {
+        ValCfg { malformed_permille: 0, strict: true }
+    }
 }
 
 /// a value of the wrong shape for (almost) any column
@@ -276,7 +287,7 @@ fn gen_inner(r: &mut Rng, dt: &Value, cfg: &ValCfg) -> Value {
                     let c = *r.pick(&['a', 'é', '日', '😀', '\0']);
                     sval::chr(c)
                 }
-                2 => {
+                2 if !cfg.strict => {
                     // just outside the range, through a wider call
                     let v = if r.bool() { hi + 1 } else { lo - 1 };
                     if v < i64::MIN as i128 || v > u64::MAX as i128 {
@@ -336,8 +347,8 @@ fn gen_inner(r: &mut Rng, dt: &Value, cfg: &ValCfg) -> Value {
         "FixedSizeBinary" => {
             let n = dt["n"].as_i64().unwrap() as usize;
             let len = match r.below(12) {
-                0 => n + 1,
-                1 => n.saturating_sub(1),
+                0 if !cfg.strict => n + 1,
+                1 if !cfg.strict => n.saturating_sub(1),
                 _ => n,
             };
             let b: Vec<u8> = (0..len).map(|_| r.below(256) as u8).collect();
@@ -347,11 +358,32 @@ fn gen_inner(r: &mut Rng, dt: &Value, cfg: &ValCfg) -> Value {
                 gen_seq_wrap(r, b.iter().map(|x| sval::int("u8", *x as i128)).collect())
             }
         }
+        "Date32" | "Date64" if r.chance(1, 4) => {
+            sval::string(&format!("{:04}-{:02}-{:02}", 1900 + r.below(200), 1 + r.below(12), 1 + r.below(28)))
+        }
+        "Time32" | "Time64" if r.chance(1, 4) => {
+            let frac = match r.below(3) {
+                0 => String::new(),
+                1 => format!(".{:03}", r.below(1000)),
+                _ => format!(".{:09}", r.below(1_000_000_000)),
+            };
+            sval::string(&format!("{:02}:{:02}:{:02}{}", r.below(24), r.below(60), r.below(60), frac))
+        }
+        "Timestamp" if r.chance(1, 4) => {
+            let base = format!("{:04}-{:02}-{:02}T{:02}:{:02}:{:02}", 1950 + r.below(100), 1 + r.below(12), 1 + r.below(28), r.below(24), r.below(60), r.below(60));
+            let frac = if r.bool() { format!(".{:03}", r.below(1000)) } else { String::new() };
+            if dt["tz"].is_null() {
+                sval::string(&format!("{base}{frac}"))
+            } else {
+                sval::string(&format!("{base}{frac}Z"))
+            }
+        }
+        "Duration" if r.chance(1, 6) => sval::string(*r.pick(&["PT5S", "P1DT2H", "-PT0.5S", "PT0S", "P2W", "PT1H30M"])),
         "Date32" | "Time32" => {
             let v = boundary_int(r, i32::MIN as i128, i32::MAX as i128);
             match r.below(4) {
                 0 => sval::int("i64", v),
-                1 => sval::int("i64", boundary_int(r, i64::MIN as i128, i64::MAX as i128)),
+                1 if !cfg.strict => sval::int("i64", boundary_int(r, i64::MIN as i128, i64::MAX as i128)),
                 _ => sval::int("i32", v),
             }
         }
@@ -363,14 +395,31 @@ fn gen_inner(r: &mut Rng, dt: &Value, cfg: &ValCfg) -> Value {
             }
         }
         "Timestamp" => match r.below(8) {
-            0 => sval::int("i32", 5),
+            0 if !cfg.strict => sval::int("i32", 5),
             _ => sval::int("i64", boundary_int(r, i64::MIN as i128, i64::MAX as i128)),
         },
         "Duration" => {
-            let v = boundary_int(r, i64::MIN as i128, u64::MAX as i128);
+            let v = boundary_int(r, i64::MIN as i128, if cfg.strict { i64::MAX as i128 } else { u64::MAX as i128 });
             int_call(r, v)
         }
-        "Decimal128" => sval::none(), // strings and floats into decimals are the codec suites' subject
+        "Decimal128" => match r.below(5) {
+            // the codec suite `decimal` covers the text grammar exhaustively; here decimals take part in nesting
+            0 => sval::none(),
+            1 | 2 => {
+                let int = r.below(200);
+                let frac = r.below(1000);
+                let txt = match r.below(5) {
+                    0 => format!("{int}"),
+                    1 => format!("-{int}.{frac:03}"),
+                    2 => format!("{int}."),
+                    3 => format!(".{frac}"),
+                    _ => format!("{int}.{frac}"),
+                };
+                sval::string(&txt)
+            }
+            3 => sval::f64v(*r.pick(&[0.0, 1.5, -2.25, 100.0, 0.001, 12345.678, -0.0])),
+            _ => sval::f32v(*r.pick(&[0.0f32, 1.5, -2.25, 7.0])),
+        },
         "Dictionary" => match r.below(5) {
             0 => sval::unit_variant("E", r.below(3) as u32, *r.pick(&["A", "Bee", ""])),
             _ => sval::string(*r.pick(&["x", "y", "", "zz", "日本", "a", "b", "c", "d"])),
@@ -388,8 +437,8 @@ fn gen_inner(r: &mut Rng, dt: &Value, cfg: &ValCfg) -> Value {
             let child = &dt["child"];
             let n = dt["n"].as_i64().unwrap() as usize;
             let len = match r.below(14) {
-                0 => n + 1,
-                1 => n.saturating_sub(1),
+                0 if !cfg.strict => n + 1,
+                1 if !cfg.strict => n.saturating_sub(1),
                 _ => n,
             };
             let items: Vec<Value> = (0..len).map(|_| gen_value(r, child, cfg)).collect();
@@ -399,7 +448,7 @@ fn gen_inner(r: &mut Rng, dt: &Value, cfg: &ValCfg) -> Value {
             let fs = dt["entries"]["dt"]["fields"].as_array().unwrap();
             let n = r.usize(4);
             let es: Vec<(Value, Value)> = (0..n).map(|_| (gen_value(r, &fs[0], cfg), gen_value(r, &fs[1], cfg))).collect();
-            if r.chance(1, 25) {
+            if !cfg.strict && r.chance(1, 25) {
                 // malformed call streams: value without key, key without value
                 let mut ops = Vec::new();
                 for (k, v) in es {
@@ -420,7 +469,7 @@ fn gen_inner(r: &mut Rng, dt: &Value, cfg: &ValCfg) -> Value {
         "Struct" => gen_record(r, dt["fields"].as_array().unwrap(), cfg),
         "Union" => {
             let fs = dt["fields"].as_array().unwrap();
-            let i = if r.chance(1, 30) { fs.len() + r.usize(3) } else { r.usize(fs.len()) };
+            let i = if !cfg.strict && r.chance(1, 30) { fs.len() + r.usize(3) } else { r.usize(fs.len()) };
             let Some(vf) = fs.get(i) else {
                 return sval::unit_variant("E", i as u32, "Unknown");
             };
@@ -453,7 +502,7 @@ pub fn gen_record(r: &mut Rng, fields: &[Value], cfg: &ValCfg) -> Value {
         let name = f["name"].as_str().unwrap().to_string();
         let nullable = f["nullable"].as_bool().unwrap();
         // absent optional fields (and, rarely, absent required ones)
-        let absent = (nullable && r.chance(1, 6)) || r.chance(1, 80);
+        let absent = (nullable && r.chance(1, 6)) || (!cfg.strict && r.chance(1, 80));
         kv.push((name, gen_value(r, f, cfg), absent));
     }
     match r.below(10) {
@@ -462,7 +511,7 @@ pub fn gen_record(r: &mut Rng, fields: &[Value], cfg: &ValCfg) -> Value {
             let mut items: Vec<Value> = kv.iter().map(|(_, v, _)| v.clone()).collect();
             match r.below(12) {
                 0 => items.push(sval::int("i32", 7)),
-                1 => {
+                1 if !cfg.strict => {
                     items.pop();
                 }
                 _ => {}
@@ -479,14 +528,43 @@ pub fn gen_record(r: &mut Rng, fields: &[Value], cfg: &ValCfg) -> Value {
             if r.chance(1, 4) {
                 es.push((sval::string("extra"), sval::int("i32", 1)));
             }
-            if r.chance(1, 40) && !es.is_empty() {
+            if !cfg.strict && r.chance(1, 40) && !es.is_empty() {
                 let d = es[0].clone();
                 es.push(d);
             }
-            if r.chance(1, 40) {
+            if !cfg.strict && r.chance(1, 40) {
                 es.push((sval::int("i32", 3), sval::int("i32", 1)));
             }
             r.shuffle(&mut es);
+            if !cfg.strict && r.chance(1, 8) {
+                // inconsistent call streams on a struct position: value without key (also right after a complete
+                // entry, also as the very last call), key without value, two keys in a row
+                let mut ops = Vec::new();
+                for (k, v) in es {
+                    match r.below(8) {
+                        0 => ops.push(json!({"val": v})),
+                        1 => ops.push(json!({"key": k})),
+                        2 => {
+                            ops.push(json!({"key": k}));
+                            ops.push(json!({"val": v.clone()}));
+                            ops.push(json!({"val": v}));
+                        }
+                        3 => {
+                            ops.push(json!({"key": k.clone()}));
+                            ops.push(json!({"key": k}));
+                            ops.push(json!({"val": v}));
+                        }
+                        _ => {
+                            ops.push(json!({"key": k}));
+                            ops.push(json!({"val": v}));
+                        }
+                    }
+                }
+                if r.bool() {
+                    ops.push(json!({"val": sval::int("i32", 1)}));
+                }
+                return json!({"k": "map_raw", "ops": ops});
+            }
             sval::map(es)
         }
         _ => {
@@ -496,7 +574,7 @@ pub fn gen_record(r: &mut Rng, fields: &[Value], cfg: &ValCfg) -> Value {
                 let pos = r.usize(fs.len() + 1);
                 fs.insert(pos, ("extra".into(), 0, sval::string("ignored")));
             }
-            if r.chance(1, 40) && !fs.is_empty() {
+            if !cfg.strict && r.chance(1, 40) && !fs.is_empty() {
                 let d = fs[r.usize(fs.len())].clone();
                 fs.push(d);
             }
@@ -540,4 +618,223 @@ pub fn float_strings(rows: &Value) -> Value {
     let mut b = serde_json::Map::new();
     walk(rows, &mut a, &mut b);
     json!({"f32_str": a, "f64_str": b})
+}
+
+// ---------------------------------------------------------------- re-presentation (C11)
+
+fn peel<'a>(v: &'a Value, wrappers: &mut Vec<Value>) -> &'a Value {
+    let mut cur = v;
+    loop {
+        match cur["k"].as_str() {
+            Some("some") => {
+                wrappers.push(json!({"k": "some"}));
+                cur = &cur["v"];
+            }
+            Some("newtype_struct") => {
+                wrappers.push(json!({"k": "newtype_struct", "n": cur["n"]}));
+                cur = &cur["v"];
+            }
+            _ => return cur,
+        }
+    }
+}
+
+fn rewrap(mut v: Value, wrappers: Vec<Value>) -> Value {
+    for w in wrappers.into_iter().rev() {
+        let mut w = w;
+        w["v"] = v;
+        v = w;
+    }
+    v
+}
+
+/// the (name, value) pairs a struct-typed position receives from `v`, whatever its presentation
+fn record_pairs(fields: &[Value], v: &Value) -> Option<Vec<(String, Value)>> {
+    match v["k"].as_str()? {
+        "struct" => Some(v["f"].as_array()?.iter().map(|f| (f[0].as_str().unwrap().to_string(), f[2].clone())).collect()),
+        "map" => {
+            let mut out = Vec::new();
+            for e in v["e"].as_array()? {
+                out.push((e[0]["v"].as_str()?.to_string(), e[1].clone()));
+            }
+            Some(out)
+        }
+        "tuple" | "tuple_struct" => {
+            let items = v["v"].as_array()?;
+            Some(fields.iter().zip(items.iter()).map(|(f, x)| (f["name"].as_str().unwrap().to_string(), x.clone())).collect())
+        }
+        _ => None,
+    }
+}
+
+/// The same logical value in another presentation: struct ↔ map ↔ tuple records, other field orders, other
+/// name addresses, extra fields, absent optional fields ↔ explicit None, seq ↔ tuple; recursively.
+pub fn rerender(r: &mut Rng, f: &Value, v: &Value) -> Value {
+    let mut wrappers = Vec::new();
+    let core = peel(v, &mut wrappers);
+    let dt = &f["dt"];
+    let t = dt["t"].as_str().unwrap();
+    let k = core["k"].as_str().unwrap_or("");
+    let out = match t {
+        "Struct" if matches!(k, "struct" | "map" | "tuple" | "tuple_struct") => {
+            let fields = dt["fields"].as_array().unwrap();
+            match record_pairs(fields, core) {
+                Some(pairs) => rerender_record(r, fields, &pairs),
+                None => core.clone(),
+            }
+        }
+        "List" | "LargeList" | "FixedSizeList" if matches!(k, "seq" | "tuple" | "tuple_struct") => {
+            let child = &dt["child"];
+            let items: Vec<Value> = core["v"].as_array().unwrap().iter().map(|x| rerender(r, child, x)).collect();
+            match r.below(3) {
+                0 => sval::tuple(items),
+                1 => sval::tuple_struct("T", items),
+                _ => sval::seq(items),
+            }
+        }
+        "Map" if k == "map" => {
+            let fs = dt["entries"]["dt"]["fields"].as_array().unwrap();
+            let es: Vec<(Value, Value)> = core["e"].as_array().unwrap().iter().map(|e| (e[0].clone(), rerender(r, &fs[1], &e[1]))).collect();
+            sval::map(es)
+        }
+        "Union" => {
+            let fs = dt["fields"].as_array().unwrap();
+            let i = core["i"].as_u64().unwrap_or(0) as usize;
+            match (k, fs.get(i)) {
+                ("newtype_variant", Some(vf)) => sval::newtype_variant("E", i as u32, core["vn"].as_str().unwrap(), rerender(r, &vf[1], &core["v"])),
+                ("struct_variant", Some(vf)) if vf[1]["dt"]["t"] == "Struct" => {
+                    let cfs = vf[1]["dt"]["fields"].as_array().unwrap();
+                    let mut fields: Vec<(String, u64, Value)> = core["f"]
+                        .as_array()
+                        .unwrap()
+                        .iter()
+                        .map(|x| {
+                            let name = x[0].as_str().unwrap().to_string();
+                            let cf = cfs.iter().find(|cf| cf["name"] == x[0]);
+                            let val = match cf {
+                                Some(cf) => rerender(r, cf, &x[2]),
+                                None => x[2].clone(),
+                            };
+                            (name, r.below(3), val)
+                        })
+                        .collect();
+                    r.shuffle(&mut fields);
+                    sval::struct_variant("E", i as u32, core["vn"].as_str().unwrap(), fields)
+                }
+                _ => core.clone(),
+            }
+        }
+        _ => core.clone(),
+    };
+    rewrap(out, wrappers)
+}
+
+pub fn rerender_record(r: &mut Rng, fields: &[Value], pairs: &[(String, Value)]) -> Value {
+    // logical content: for each schema field the value given (None when absent); unknown names are dropped
+    let mut logical: Vec<(String, Option<Value>, bool)> = Vec::new();
+    for f in fields {
+        let name = f["name"].as_str().unwrap();
+        let given = pairs.iter().find(|(k, _)| k == name).map(|(_, v)| rerender(r, f, v));
+        logical.push((name.to_string(), given, f["nullable"].as_bool().unwrap()));
+    }
+    let all_present_or_nullable = logical.iter().all(|(_, v, n)| v.is_some() || *n);
+    match r.below(10) {
+        0 | 1 if all_present_or_nullable => {
+            // tuple in schema order: absent optional fields become explicit None (trailing ones may be dropped)
+            let mut items: Vec<Value> = logical.iter().map(|(_, v, _)| v.clone().unwrap_or_else(sval::none)).collect();
+            while r.chance(1, 3) && logical.len() == items.len() && items.last().map(|x| x["k"] == "none").unwrap_or(false) {
+                items.pop();
+            }
+            if items.len() == logical.len() && r.chance(1, 6) {
+                items.push(sval::string("surplus"));
+            }
+            if r.bool() {
+                sval::tuple(items)
+            } else {
+                sval::tuple_struct("T", items)
+            }
+        }
+        2 | 3 | 4 => {
+            let mut es: Vec<(Value, Value)> = Vec::new();
+            for (k, v, _) in &logical {
+                match v {
+                    Some(v) => es.push((sval::string(k), v.clone())),
+                    None if r.bool() => es.push((sval::string(k), sval::none())),
+                    None => {}
+                }
+            }
+            if r.chance(1, 3) {
+                es.push((sval::string("not in schema"), sval::int("i32", 1)));
+            }
+            r.shuffle(&mut es);
+            sval::map(es)
+        }
+        _ => {
+            let mut fs: Vec<(String, u64, Value)> = Vec::new();
+            for (k, v, _) in &logical {
+                match v {
+                    Some(v) => fs.push((k.clone(), r.below(3), v.clone())),
+                    None if r.bool() => fs.push((k.clone(), r.below(3), sval::none())),
+                    None => {}
+                }
+            }
+            if r.chance(1, 3) {
+                let pos = r.usize(fs.len() + 1);
+                fs.insert(pos, ("not in schema".into(), 0, sval::seq(vec![sval::unit()])));
+            }
+            if r.chance(2, 3) {
+                r.shuffle(&mut fs);
+            }
+            sval::record(*r.pick(&["R", "S", "Other"]), fs)
+        }
+    }
+}
+
+fn decimal_scales(v: &Value, out: &mut Vec<i64>) {
+    match v {
+        Value::Object(m) => {
+            if m.get("t").and_then(|t| t.as_str()) == Some("Decimal128") {
+                if let Some(s) = m.get("s").and_then(|s| s.as_i64()) {
+                    if !out.contains(&s) {
+                        out.push(s);
+                    }
+                }
+            }
+            for (_, x) in m {
+                decimal_scales(x, out);
+            }
+        }
+        Value::Array(a) => {
+            for x in a {
+                decimal_scales(x, out);
+            }
+        }
+        _ => {}
+    }
+}
+
+/// aux table of a build-side case: float display strings and, for every float × every decimal scale of the
+/// schema, the float product the decimal builder computes (`(v * 10^scale)`, finite?, `as i128`) — external
+/// functions of the model.
+pub fn aux_for(schema: &Value, rows: &Value) -> Value {
+    let mut aux = float_strings(rows);
+    let mut scales = Vec::new();
+    decimal_scales(schema, &mut scales);
+    let mut casts = serde_json::Map::new();
+    if !scales.is_empty() {
+        let f32s: Vec<u32> = aux["f32_str"].as_object().unwrap().keys().map(|k| k.parse().unwrap()).collect();
+        let f64s: Vec<u64> = aux["f64_str"].as_object().unwrap().keys().map(|k| k.parse().unwrap()).collect();
+        for s in &scales {
+            for b in &f32s {
+                let scaled = (f32::from_bits(*b) * (10.0_f32).powi(*s as i32)) as f64;
+                casts.insert(format!("f32:{b}:{s}"), json!({"finite": scaled.is_finite(), "cast": (scaled as i128).to_string()}));
+            }
+            for b in &f64s {
+                let scaled = f64::from_bits(*b) * (10.0_f64).powi(*s as i32);
+                casts.insert(format!("f64:{b}:{s}"), json!({"finite": scaled.is_finite(), "cast": (scaled as i128).to_string()}));
+            }
+        }
+    }
+    aux["dec_cast"] = Value::Object(casts);
+    aux
 }
